@@ -86,7 +86,7 @@ func storeDump(s *drv.Server, buckets []string) string {
 
 func runC16(c *Ctx) {
 	r := c.R
-	r.SetRule("random request sequences (40-80 logical requests over the routed surface: bucket create/head/delete/list V1+V2/location/versioning/versions/uploads/multi-delete, object put/get/head/delete/copy/range/versionId, multipart initiate/part/list/complete/abort, browser POST) on buckets {alpha, beta-2} (one request in seven addressed to a label that is not a bucket: other letter case, a prefix or extension of a bucket name, invalid characters) and keys incl. nested and escaped ones; each logical request is sent path-style to P, host-style to H (WithHostBucket) and to HB (WithHostBucketBase, two bases with and without port) and the three answers must be identical except request ids and the Location of CompleteMultipartUpload; fallback hosts (base itself, multi-label prefix, unrelated, IP) must be answered by HB exactly as P answers the same path; extra leading/trailing slashes must not change the addressed bucket/key; distinct = (backend, host form, request signature)")
+	r.SetRule("random request sequences (40-80 logical requests over the routed surface: bucket create/head/delete/list V1+V2/location/versioning/versions/uploads/multi-delete, object put/get/head/delete/copy/range/versionId, multipart initiate/part/list/complete/abort, browser POST) on buckets {alpha, beta-2} (one request in seven addressed to a label that is not a bucket: other letter case, a prefix or extension of a bucket name, invalid characters) and keys incl. nested and escaped ones and keys that repeat a bucket's name; each logical request is sent path-style to P, host-style to H (WithHostBucket) and to HB (WithHostBucketBase, two bases with and without port) and the three answers must be identical except request ids and the Location of CompleteMultipartUpload; fallback hosts (base itself, multi-label prefix, unrelated, IP) must be answered by HB exactly as P answers the same path; extra leading/trailing slashes must not change the addressed bucket/key; distinct = (backend, host form, request signature)")
 	fixed := time.Date(2021, 3, 4, 5, 6, 7, 0, time.UTC)
 	nseq := r.Pick(300, 6000)
 	kinds := []string{drv.Mem, drv.Bolt}
@@ -142,7 +142,8 @@ func c16Sequence(r *rep.Reporter, kind string, si int, fixed time.Time, bases []
 	defer HB.Close()
 	buckets := []string{"alpha", "beta-2"}
 	foreign := []string{"Alpha", "ALPHA", "Beta-2", "BETA-2", "alph", "alphaa", "aLpha", "beta-2x", "al_pha", "gamma"}
-	keys := []string{"k", "d/x", "d/e/z", "sp ace+%25?#&", "ключ", "/lead", "//dbl/lead", "lead"}
+	// incl. keys that repeat a bucket's name (alone or as first segment) and a literal percent escape
+	keys := []string{"k", "d/x", "d/e/z", "sp ace+%25?#&", "ключ", "/lead", "//dbl/lead", "lead", "alpha", "alpha/in", "beta-2/alpha/in", "beta-2", "lit%41eral"}
 	r.Eval(1)
 	var trace []lreq
 	var uploads []struct{ b, k, id string }
